@@ -154,6 +154,9 @@ def tlc_gen_replay(scratch, harness, family, spec, cfg, timeout_s, workers=None,
     info["cmd"] = "tlc -config %s %s | mxjconf replay %s" % (cfg, spec, family)
     if rc1 == 124:
         raise MachineryError("TLC timed out after %ds on %s/%s" % (timeout_s, spec, cfg))
+    if p2.returncode != 0 and not os.path.exists(summ):
+        # the harness process died (TLC then dies of the closed pipe, its log is incomplete)
+        raise MachineryError("replay harness for %s crashed (rc=%s): %s" % (family, p2.returncode, hout[-3000:]))
     if not info["ok"]:
         path = os.path.join(VERIF, "replays", "tlc-error-%s.txt" % cfg.replace(".cfg", ""))
         os.makedirs(os.path.dirname(path), exist_ok=True)
